@@ -106,6 +106,13 @@ CHECKS = {
         "<= 4 files in <= 3 directories (the quantifier allows 6 files).",
         "§4 C28",
     ),
+    "C18": (
+        "progmc c18",
+        "bounded-exhaustive enumeration of types (reflection vs address arithmetic vs a reference layout calculator) and of type pairs (type-value equality), each program compiled with the real core module by the real CLI and executed",
+        "98 types (13 scalars, byte structs, 18 mixed structs, 7 enums, optionals, error unions, arrays, nestings, str/char/type/usize/isize/rawptr/any, pointers, slices, distinct types incl. distinct of distinct, ?^T, [0]T, structs of pointers/slices/types/enums): size_of / align_of / stride_of at runtime and inside comptime, the type info of each kind (int width and signedness, float width, array length / element type / element stride, pointer target and mutability, distinct sub type, struct member count / names / types / offsets, enum variant count / discriminant offset / per-variant discriminant and payload size, optional and error-union discriminant offset and is_non_zero), member offsets and element strides measured by address arithmetic on a real value, and `any.ty`; a 51 x 51 type-equality matrix (equal iff same type).",
+        "64-bit host only; the reference layout calculator is written from the documented representation rules; the tag position is taken from reflection and the reference, not from byte-diffing.",
+        "§4 C18",
+    ),
     "C22": (
         "capy-verif lex-mc",
         "bounded-exhaustive input enumeration against invariants (every string <= k over token-class alphabets, every <= 3-word sequence) on the real lexer",
@@ -183,18 +190,18 @@ CHECKS = {
         "Entity identity = (file path, entity tuple); four known collision classes are excused only when the listed defect model makes the two descriptors equal.",
         "§4 C27",
     ),
-    "C06_pending": (
+    "C06": (
         "capy-verif front-mc",
         "bounded-exhaustive input enumeration and deviation-bounded (1 edit) mutation of the corpus through the complete in-process pipeline in supervised worker processes",
         "Every string of <= 2 (thorough 3) spellings over a 42-token alphabet in 4 wrappers, every corpus snippet unchanged (with codegen) and with every single-token edit, and 34 nesting families to depth 200 go through the real lex/parse/validate/index/lower/infer(+comptime JIT)/codegen pipeline; panics, aborts, verifier errors, timeouts and diagnostic-rendering failures are reported per input.",
         "In-process pipeline with fake_file_system = true as the repository's own tests use; 64 KiB inputs and double edits are not reached; comptime user-code timeouts are counted as inconclusive.",
         "§4 C06",
     ),
-    "C07_pending": (
-        "capy-verif unsafe-mc",
-        "bounded-exhaustive enumeration (same families as C06) with the error/unsafe/object equivalence as oracle",
-        "On every compilation of the C06 families: no error diagnostic implies nothing is flagged unsafe and code generation succeeds; a type error attached to an expression implies something is flagged unsafe.",
-        "In-process; the CLI's own gate (exit status, object file) is covered by the program-level checks.",
+    "C07": (
+        "capy-verif unsafe-mc + progmc c07",
+        "bounded-exhaustive enumeration in two halves: (in process) the C06 families with the error / unsafe / object equivalence as oracle; (program level) every near-valid program of the C05/C11/C13/C14/C15 enumerations compiled alone by the real CLI with --verbose-types local, the two end states `rejected` and `built` must be the only ones",
+        "In process: on every compilation of the C06 families (token strings, every single-token edit of the corpus, pumps) no error diagnostic implies nothing is flagged unsafe and code generation succeeds, and a type error attached to an expression implies something is flagged unsafe. Program level: ~1 500 (thorough ~3 000) programs - each a well-typed program or the same program with exactly one type-, mutability-, const-, scope- or switch-breaking deviation - are built one by one by the real CLI in the mode in which its own assert is live; each must end either rejected (>= 1 error, no object, no executable, exit 1) or built (0 errors, object, executable, exit 0, nothing UNSAFE TO COMPILE, no internal error).",
+        "Which end state a program should reach is decided by the other properties; findings are listed by input (hash lists / narrow input patterns), so a new input that breaks the equivalence is still reported.",
         "§4 C07",
     ),
 }
